@@ -390,9 +390,13 @@ class BVReduceBW:
     def global_mutations(self, node, input_):
         bw = get_bv_width(node[1])
         bws = sorted(set([bw - 1, bw // 2, 2, 1]))
+        varname = '_{}'.format(node[1])
+        if not node[1].is_leaf() or is_piped_symbol(node[1]) or is_var(
+                Node(varname)):
+            # the name of the fresh variable is not a fresh simple symbol
+            return
         for b in bws:
             if 0 < b < bw:
-                varname = '_{}'.format(node[1])
                 var = Node('declare-const', varname, Node('_', 'BitVec', b))
                 zext = Node('define-fun', node[1], (), get_sort(node[1]),
                             Node(Node('_', 'zero_extend', bw - b), varname))
